@@ -107,4 +107,35 @@ def positive_example(src, finder, what):
         raise AnalysisError(f"built-in positive example for {what} no longer matches: recogniser broken")
 
 
+def callsite_values(repo, fn, param, prefixes=("xonsh",)):
+    """Expressions passed for ``param`` of module-level function ``fn`` at every call site in
+    the repository (default value node if omitted).  Calls are matched by the function's
+    bare name (``f(...)`` or ``mod.f(...)``)."""
+    name = fn.name
+    a = fn.args
+    pos = [x.arg for x in a.posonlyargs + a.args]
+    defaults = dict(zip(reversed(pos), reversed(a.defaults)))
+    for k, d in zip(a.kwonlyargs, a.kw_defaults):
+        if d is not None:
+            defaults[k.arg] = d
+    idx = pos.index(param) if param in pos else None
+    out = []
+    for m in repo.modules(*prefixes, containing=name):
+        for c in [n for n in ast.walk(m.tree) if isinstance(n, ast.Call)]:
+            if last_attr(c) != name:
+                continue
+            v = None
+            if idx is not None and idx < len(c.args) and not any(isinstance(x, ast.Starred) for x in c.args[: idx + 1]):
+                v = c.args[idx]
+            for k in c.keywords:
+                if k.arg == param:
+                    v = k.value
+                elif k.arg is None:
+                    v = v or k.value  # **kwargs: unknown
+            if v is None:
+                v = defaults.get(param)
+            out.append((c, v))
+    return out
+
+
 __all__ = [n for n in dir() if not n.startswith("_")]
